@@ -805,6 +805,7 @@ theorem argRes_of_argParser {s cs : Str} (k : ArgKind) {pos pos' : Nat} {res : R
   | d o c => exact argRes_of_group hle h
   | v => exact h
   | vd o c => exact h
+  | m0 => exact h
 
 theorem argsLoop_post (htol : env.tol = false) (ih : ∀ t, Good env.s cs t (rec t)) {f : PSFields} (hf : FOk cs f)
     (a : ArgsP) (pos0 : Nat) :
